@@ -69,14 +69,18 @@ package bytes
 //@   ensures len(result) > 0 ==> result.$arr == b.$arr && !isBlank(result[0]) && !isBlank(result[len(result)-1])
 //@   ensures len(result) > 0 ==> allBlank(b, 0, result.$off - b.$off) && allBlank(b, result.$off - b.$off + len(result), len(b))
 //@   ensures len(result) == 0 ==> allBlank(b, 0, len(b))
+//@   defines result == trimOf(b)
 //@   loop 0 invariant 0 <= left && left <= blen && blen == len(b) && right == blen - 1 && allBlank(b, 0, left)
 //@   loop 0 decreases blen - left
 //@   loop 1 invariant left < blen && blen == len(b) && !isBlank(b[left]) && left <= right && right < blen && allBlank(b, right + 1, blen) && allBlank(b, 0, left)
 //@   loop 1 decreases right
 
 //@ func (Bytes).OneOf(ss)
-//@   props C03 C07
+//@   props C03 C07 C01
 //@   nopanic
+//@   ensures result == (exists i :: 0 <= i && i < len(ss) && spells(b, ss[i]))
+//@   loop 0 invariant rangeindex < len(ss) && (forall i :: 0 <= i && i <= rangeindex ==> !spells(b, ss[i]))
+//@   loop 0 decreases len(ss) - rangeindex
 
 //@ func (Bytes).ParseBool()
 //@   props C02 C07
